@@ -95,6 +95,7 @@ class Sys:
         self.log = []
         self.is_async = kind.startswith('async')
         self.uses = None
+        self.left_running = []
         if 'custom' in kind:
             # 'sync-custom' / 'async-custom': every pluggable class / function replaced by a counting subclass / wrapper
             cc, self.uses = custom_classes()
@@ -106,6 +107,9 @@ class Sys:
         if self.is_async:
             if 'seq' in kind:
                 cfg = dict(cfg, concurrent_batch=False)
+            if 'conc2' in kind:
+                # a truthy value other than True (a documented bool; a future 'limit' reading must behave no worse): concurrent
+                cfg = dict(cfg, concurrent_batch=2)
             if 'wrapped' in kind and coroutine_methods is None:
                 coroutine_methods = 'wrapped'
             self.d = pjrpc.server.AsyncDispatcher(**cfg)
@@ -114,15 +118,29 @@ class Sys:
         if coroutine_methods is None:
             coroutine_methods = self.is_async
         if table:
-            methods.register(self.d, table, self.log, is_async=coroutine_methods)
+            if 'pd' in kind:
+                # 'sync-pd' / 'async-pd': every (unannotated) method is validated by one PydanticValidator: nothing may change
+                from pjrpc.server.validators import pydantic as _vpd
+                v = _vpd.PydanticValidator()
+                for name, beh in table.items():
+                    self.d.add(v.validate(methods.build_function(name, beh, self.log, is_async=coroutine_methods)), name=name)
+            else:
+                methods.register(self.d, table, self.log, is_async=coroutine_methods)
 
     def dispatch(self, text, context=None):
         """-> ('raise', exc) | ('ret', value)   (value is whatever dispatch returned)"""
         try:
             if self.is_async:
+                import asyncio
                 loop = VLoop()
                 try:
                     r = loop.run(self.d.dispatch(text, context=context))
+                    # everything the dispatch started must be finished when it returns
+                    self.left_running = [t for t in asyncio.all_tasks(loop) if not t.done()]
+                    for t in self.left_running:
+                        t.cancel()
+                    if self.left_running:
+                        loop.run_ready()
                 finally:
                     loop.close()
             else:
